@@ -8,6 +8,7 @@ import Alpen.Model.UpDown
 import Alpen.Model.Queue
 import Alpen.Model.Task
 import Alpen.Model.Retry
+import Alpen.Model.WorldOps
 /-!
 Line-protocol driver: one operation per line on stdin, one canonical answer line on
 stdout.  Strings travel as comma-separated code points (`-` = empty string).
@@ -179,6 +180,7 @@ structure St where
   udThreads : List Nat := []      -- thread ids seen (for dumps)
   q : Q := Q.init
   qKeys : List Nat := []
+  w : World := ⟨[], [], [], [], [], [], [], 100000⟩
 
 def uoutStr : UOut → String
   | .acquired => "acquired" | .refused => "refused" | .timedOut => "timedOut" | .parked => "parked"
@@ -202,6 +204,58 @@ def udDump (s : St) : String :=
   let p := if prk.isEmpty then "-" else ",".intercalate prk
   s!"count={s.ud.count} owners={o} parked={p} clock={s.ud.clock}"
 
+def decWCopy : List String → Option WCopy
+  | [i, f, n, h, wn, r] => do pure ⟨← i.toNat?, ← f.toNat?, ← n.toNat?, ← Has.ofString h, ← Wants.ofString wn, ← decBool r⟩
+  | _ => none
+def decWReq : List String → Option WReq
+  | [i, f, a, b, c, x] => do pure ⟨← i.toNat?, ← f.toNat?, ← a.toNat?, ← b.toNat?, ← decBool c, ← decBool x⟩
+  | _ => none
+def decTransfer : String → Option World.Transfer
+  | "ok" => some .ok | "digestMismatch" => some .digestMismatch | "failedCheckSrc" => some .failedCheckSrc
+  | "failedNoCheck" => some .failedNoCheck | "noRoute" => some .noRoute | _ => none
+
+def decWOp : List String → Option WOp
+  | ["deleteOne", c, uf] => do pure (.deleteOne (← decWCopy (c.splitOn ":")) (← decBool uf))
+  | ["check", c, ok] => do pure (.check (← decWCopy (c.splitOn ":")) (← decBool ok))
+  | ["decide", r, sr] => do pure (.decide (← decWReq (r.splitOn ":")) (← decBool sr))
+  | ["search", r, d, od] => do pure (.search (← decWReq (r.splitOn ":")) (← d.toNat?) (← decBool od))
+  | ["pull", r, d, t] => do pure (.pull (← decWReq (r.splitOn ":")) (← d.toNat?) (← decTransfer t))
+  | ["opSetCopy", i, h, wn] => do pure (.opSetCopy (← i.toNat?) (← Has.ofString h) (← Wants.ofString wn))
+  | ["opAddReq", f, a, b] => do pure (.opAddReq (← f.toNat?) (← a.toNat?) (← b.toNat?))
+  | ["opCancelReq", i] => do pure (.opCancelReq (← i.toNat?))
+  | ["opAddCopy", f, n, h, wn] => do pure (.opAddCopy (← f.toNat?) (← n.toNat?) (← Has.ofString h) (← Wants.ofString wn))
+  | ["fault", n, f, len, dg] => do pure (.fault (← n.toNat?) (← f.toNat?) (some ⟨← len.toNat?, ← dg.toNat?⟩))
+  | ["fault", n, f] => do pure (.fault (← n.toNat?) (← f.toNat?) none)
+  | _ => none
+
+def effStr : Eff → String
+  | .unlink n f => s!"unlink:{n}:{f}"
+  | .write n f c => s!"write:{n}:{f}:{c.len}:{c.digest}"
+  | .setCopy i h wn => s!"setCopy:{i}:{h.toString}:{wn.toString}"
+  | .newCopy f n h => s!"newCopy:{f}:{n}:{h.toString}"
+  | .reqCompleted i => s!"reqCompleted:{i}"
+  | .reqCancelled i => s!"reqCancelled:{i}"
+  | .newReq f a b => s!"newReq:{f}:{a}:{b}"
+  | .sourceSuspect f n => s!"sourceSuspect:{f}:{n}"
+
+def decisionStr : World.PullDecision → String
+  | .cancelPresent => "cancelPresent" | .skipDestSuspect => "skipDestSuspect" | .skipSourceInactive => "skipSourceInactive"
+  | .cancelSourceMissing => "cancelSourceMissing" | .skipSourceSuspect => "skipSourceSuspect" | .skipNotReady => "skipNotReady"
+  | .dispatch f => "dispatch:" ++ encBool f
+
+def insertSortedS (x : String) : List String → List String
+  | [] => [x]
+  | y :: ys => if x ≤ y then x :: y :: ys else y :: insertSortedS x ys
+def sortStrs (l : List String) : List String := l.foldl (fun acc x => insertSortedS x acc) []
+
+/-- canonical dump: rows without ids, sorted (ids of rows created by the model differ from the database's) -/
+def worldDump (w : World) : String :=
+  let pad (n : Nat) : String := let s := toString n; "".pushn '0' (6 - s.length) ++ s
+  let cs := sortStrs (w.copies.map (fun c => s!"{pad c.file}:{pad c.node}:{c.has.toString}:{c.wants.toString}:{encBool c.ready}"))
+  let rs := sortStrs (w.reqs.map (fun r => s!"{pad r.file}:{pad r.nodeFrom}:{pad r.groupTo}:{encBool r.completed}:{encBool r.cancelled}"))
+  let ds := sortStrs (w.disk.map (fun e => s!"{pad e.1.1}:{pad e.1.2}:{e.2.len}:{e.2.digest}"))
+  s!"copies={",".intercalate cs} reqs={",".intercalate rs} disk={",".intercalate ds}"
+
 def stateful (s : St) (toks : List String) : Option (St × String) :=
   match toks with
   | ["u.reset"] => some ({ s with ud := UD.init, udThreads := [] }, "ok")
@@ -221,6 +275,39 @@ def stateful (s : St) (toks : List String) : Option (St × String) :=
       let dt ← dt.toNat?
       pure ({ s with ud := (ustep s.ud (.tick dt)).1 }, "ok")
   | ["u.dump"] => some (s, udDump s)
+  | "w.reset" :: _ => some ({ s with w := ⟨[], [], [], [], [], [], [], 100000⟩ }, "ok")
+  | ["w.node", i, g, h, a, st, av, mn, mx, rt] => do
+      let n : WNode := ⟨← i.toNat?, ← g.toNat?, ← h.toNat?, ← decBool a, ← SType.ofString st, ← decOptInt av, ← decInt mn, ← decOptInt mx, ← decBool rt⟩
+      pure ({ s with w := { s.w with nodes := s.w.nodes ++ [n] } }, "ok")
+  | ["w.file", i, sz, md] => do
+      let f : WFile := ⟨← i.toNat?, ← decOptNat sz, ← decOptNat md⟩
+      pure ({ s with w := { s.w with files := s.w.files ++ [f] } }, "ok")
+  | ["w.copy", i, f, n, h, wn, r] => do
+      let c : WCopy := ⟨← i.toNat?, ← f.toNat?, ← n.toNat?, ← Has.ofString h, ← Wants.ofString wn, ← decBool r⟩
+      pure ({ s with w := { s.w with copies := s.w.copies ++ [c] } }, "ok")
+  | ["w.req", i, f, a, b, c, x] => do
+      let r : WReq := ⟨← i.toNat?, ← f.toNat?, ← a.toNat?, ← b.toNat?, ← decBool c, ← decBool x⟩
+      pure ({ s with w := { s.w with reqs := s.w.reqs ++ [r] } }, "ok")
+  | ["w.edge", i, a, b, sy, cl] => do
+      let e : PEdge := ⟨← i.toNat?, ← a.toNat?, ← b.toNat?, ← decBool sy, ← decBool cl⟩
+      pure ({ s with w := { s.w with edges := s.w.edges ++ [e] } }, "ok")
+  | ["w.disk", n, f, len, dg] => do
+      pure ({ s with w := s.w.setDisk (← n.toNat?) (← f.toNat?) (some ⟨← len.toNat?, ← dg.toNat?⟩) }, "ok")
+  | ["w.undisk", n, f] => do
+      pure ({ s with w := s.w.setDisk (← n.toNat?) (← f.toNat?) none }, "ok")
+  | "w.op" :: rest => do
+      let op ← decWOp rest
+      let (w', effs) := s.w.wstep op
+      let extra := match op with
+        | .decide r sr => " decision=" ++ decisionStr (s.w.updatePull r sr)
+        | .search r d od => " passOn=" ++ encBool (s.w.groupSearch r d od).2.2
+        | _ => ""
+      pure ({ s with w := w' }, (if effs.isEmpty then "-" else " ".intercalate (effs.map effStr)) ++ extra)
+  | ["w.q", "archiveCount", f] => do pure (s, toString (s.w.archiveCount (← f.toNat?)))
+  | ["w.q", "elsewhere", f, n] => do pure (s, toString (s.w.archiveCountElsewhere (← f.toNat?) (← n.toNat?)))
+  | ["w.q", "updateDelete", n] => do pure (s, encNats (s.w.updateDelete (← n.toNat?)))
+  | ["w.q", "groupState", g, f] => do pure (s, (s.w.groupState (← g.toNat?) (← f.toNat?)).toString)
+  | ["w.dump"] => some (s, worldDump s.w)
   | ["q.reset", keys] => do
       let ks ← decNats keys
       pure ({ s with q := Q.init, qKeys := ks }, "ok")
